@@ -36,6 +36,11 @@ func init() {
 		TrustedBase: []string{"reference pen state machine in /verif/mc/checks/c19.go", "encoding/xml decoder (and expat in the thorough tier) for parsing the output"},
 		Run:         runC19,
 		Replay: func(sub string, in json.RawMessage) *fw.Violation {
+			if sub == "svg-endings" {
+				var e c19EndingInput
+				json.Unmarshal(in, &e)
+				return c19Ending(e)
+			}
 			var cmds []string
 			json.Unmarshal(in, &cmds)
 			return checkC19(nil, cmds, true)
@@ -69,6 +74,7 @@ var c19Odd = []string{"gridn 0 \"red\"", "gridn -1 \"red\"", "gridn (0/0) \"red\
 	"font {size:0}", "font {bogus:1}", "font {align:\"up\"}", "clear \"a\" \"b\"", "move (1/0) 5", "line (0/0) 5"}
 
 func runC19(w *fw.Worker) {
+	c19Endings(w)
 	depth := 3
 	if !w.Quick() {
 		depth = 4
@@ -666,6 +672,85 @@ func classifyErr(err error) string {
 		return "ok"
 	}
 	return run.Classify(err, false)
+}
+
+// c19Endings: whatever way the program ends (normally, exit, panic, failed test, run-time error), `evy run --svg-out` (file and "-")
+// writes the complete document of what was drawn before.
+func c19Endings(w *fw.Worker) {
+	prefixes := [][]string{{"circle 5"}, {"move 10 10", "rect 3 3", "text \"a&b\""}, {"color \"red\"", "line 20 20", "fill \"none\"", "circle 2"}}
+	endings := []struct {
+		name string
+		code []string
+		exit int
+	}{
+		{"normal", nil, 0}, {"exit0", []string{"exit 0"}, 0}, {"exit3", []string{"exit 3"}, 3}, {"panic", []string{"panic \"boom\""}, 1},
+		{"failed-test", []string{"test 1 2"}, 1}, {"index-error", []string{"a := [1]", "print a[5]"}, 1}, {"bad-argument", []string{"gridn 0 \"blue\""}, 1},
+	}
+	for pi, pre := range prefixes {
+		for _, e := range endings {
+			for _, toStdout := range []bool{false, true} {
+				pre, e, toStdout := pre, e, toStdout
+				in := c19EndingInput{Prefix: pre, Ending: e.code, Name: e.name, Exit: e.exit, Stdout: toStdout}
+				w.Case(fmt.Sprint("ending", pi, e.name, toStdout), func() *fw.Violation {
+					w.Nontrivial()
+					w.Count("cli-endings", 1)
+					return c19Ending(in)
+				})
+			}
+		}
+	}
+}
+
+type c19EndingInput struct {
+	Prefix []string `json:"prefix"`
+	Ending []string `json:"ending"`
+	Name   string   `json:"name"`
+	Exit   int      `json:"exit"`
+	Stdout bool     `json:"svg_to_stdout"`
+}
+
+func c19Ending(in c19EndingInput) *fw.Violation {
+	want, class, errText := runSVG(in.Prefix)
+	if class != "ok" {
+		panic("C19: drawing prefix fails: " + errText)
+	}
+	dir, err := os.MkdirTemp(os.Getenv("VERIF_BUILD_DIR"), "svge-")
+	if err != nil {
+		panic(err)
+	}
+	defer os.RemoveAll(dir)
+	src := filepath.Join(dir, "p.evy")
+	out := filepath.Join(dir, "out.svg")
+	cmds := append(append([]string(nil), in.Prefix...), in.Ending...)
+	os.WriteFile(src, []byte(strings.Join(cmds, "\n")+"\n"), 0o644)
+	target := out
+	if in.Stdout {
+		target = "-"
+	}
+	cmd := exec.Command(os.Getenv("VERIF_EVY"), "run", "--svg-out", target, src)
+	var so, se bytes.Buffer
+	cmd.Stdout, cmd.Stderr = &so, &se
+	rerr := cmd.Run()
+	code := 0
+	if ee, ok := rerr.(*exec.ExitError); ok {
+		code = ee.ExitCode()
+	} else if rerr != nil {
+		panic(rerr)
+	}
+	got := so.String()
+	if !in.Stdout {
+		b, _ := os.ReadFile(out)
+		got = string(b)
+	}
+	if code != in.Exit {
+		return &fw.Violation{Sub: "svg-endings", Signature: "cli-exit-status:" + in.Name, What: "unexpected exit status", Input: in, Expected: fmt.Sprint(in.Exit), Observed: fmt.Sprint(code, " ", se.String())}
+	}
+	// on stdout the document follows whatever the program printed (e.g. the test summary)
+	if got != want && !(in.Stdout && strings.HasSuffix(got, want)) {
+		return &fw.Violation{Sub: "svg-endings", Signature: "cli-svg-incomplete:" + in.Name, What: "evy run --svg-out does not write the complete document of what was drawn when the program ends this way",
+			Input: in, Expected: fw.Trunc(want, 400), Observed: fw.Trunc(got, 400) + " stderr=" + se.String()}
+	}
+	return nil
 }
 
 // c19CLI runs the sequence through `evy run --svg-out` and requires the same document.
